@@ -1450,7 +1450,7 @@ ReorderDataCallback(DataNode & node, void * userData)
    if (indexNode)
    {
       DataNodeRef childNodeRef;
-      if (indexNode->GetChild(node.GetNodeName(), childNodeRef).IsOK()) (void) indexNode->ReorderChild(childNodeRef, *static_cast<const String *>(userData), this);
+      if ((indexNode->GetChild(node.GetNodeName(), childNodeRef).IsOK())&&(indexNode->ReorderChild(childNodeRef, *static_cast<const String *>(userData), this).IsOK())) _indexingPresent = true;  // disable optimization in GetDataCallback()
    }
    return node.GetDepth();
 }
@@ -1842,7 +1842,11 @@ StorageReflectSession :: CloneDataNodeSubtree(const DataNode & node, const Strin
          for (uint32 i=0; i<idxLen; i++)
          {
             const String & nodeName = (*index)[i]()->GetNodeName();
-            if (clone->HasChild(nodeName)) MRETURN_ON_ERROR(clone->InsertIndexEntryAt(writeIdxCounter++, this, nodeName));
+            if (clone->HasChild(nodeName))
+            {
+               MRETURN_ON_ERROR(clone->InsertIndexEntryAt(writeIdxCounter++, this, nodeName));
+               _indexingPresent = true;  // disable optimization in GetDataCallback()
+            }
          }
       }
       else return B_DATA_NOT_FOUND;
